@@ -117,6 +117,7 @@ func histFiles(ext string) map[string]string {
 		"repeats" + ext:         "{{ pattern.repeat(n) }}|{{ amount.decimal(sep, places) }}",
 		"args" + ext:            "{{ word.at(-back) }}|{{ shown.then(!muted, \"n/a\") }}|{{ -n }}|{{ word.at(back - 1) }}|{{ [1, 2, 3].slice(-(back), 3) }}|@each(w in [word])@if(!muted){{ w.repeat(-(-back)) }}@end@end",
 		"item" + ext:            "item {{ it.name }}/{{ it.qty }} {{ it }}",
+		"badge" + ext:           "{{ \"admin,editor\".contains(role) ? \"staff\" : \"guest\" }}|{{ [role].contains(\"admin\") ? 1 : 2 }}|@if(\"admin\".contains(role))a@else b@end|{{ true.then(role, 0) }}|{{ role.len() > 5 ? \"long\" : \"short\" }}|{{ \"x\".repeat(role.len()) }}|{{ [1, 2, 3].slice(role.len() - 5).len() }}|@each(k in [1, 2]){{ \"ab\".contains(role.at(k)) ? \"y\" : \"n\" }}@end",
 		"numbers" + ext:         "{{ x.str() }}|{{ x }}|{{ (x * 1.0).str() }}|{{ (0.0 * x).str() }}|{{ [[n, n + 1], [0, 0]] }}|{{ [1, [n], \"s\"] }}|@each(k in [[n], [2]]){{ k }}@end|{{ {a: [n], b: {c: n}} }}|{{ [[]].len() + n }}|{{ [\"a\", [\"b\" + n.str()]] }}",
 	}
 }
@@ -206,6 +207,9 @@ func histOps() []histOp {
 		{"String(args, back=3 muted=true)", str("args", func() map[string]any {
 			return map[string]any{"word": "stair", "back": 3, "shown": true, "muted": true, "n": -4}
 		})},
+		// literal receivers whose arguments differ from render to render
+		{"String(badge, role=admin)", str("badge", func() map[string]any { return map[string]any{"role": "admin"} })},
+		{"String(badge, role=visitor)", str("badge", func() map[string]any { return map[string]any{"role": "visitor"} })},
 		// one loaded page with zeros of either sign, and with literals nested in literals that hold different values each time
 		{"String(numbers, +0.0 n=1)", str("numbers", func() map[string]any { return map[string]any{"x": 0.0, "n": 1} })},
 		{"String(numbers, -0.0 n=5)", str("numbers", func() map[string]any { return map[string]any{"x": math.Copysign(0, -1), "n": 5} })},
